@@ -447,8 +447,12 @@ var c12Discards = map[string]string{
 
 // overwrites accepted today, keyed function: first-callee => second-callee.
 var c12Overwrites = map[string]string{
-	"Interpreter.cfg: node.cfgErrorf => typecheck.index": "indexExpr post-order case: the cfgErrorf for a non-indexable operand is overwritten by check.index; for every such operand tried (pointer to non-array, struct, float, chan, func, binary types) the earlier valueTOf(typ.Elem()) / nil type already panics in the same case, so the overwritten error is not the verdict that matters (the input is rejected by a panic, reported as CFG post-order panic)",
-	"nodeType2: nodeType2 => nodeType2":                  "binary-expression case: the error of the second operand's nodeType2 is replaced by the next nodeType2 call; when it is non-nil t1 is nil and the very next statement dereferences it (panic), so no program is accepted through this overwrite",
+	"Interpreter.cfg: node.cfgErrorf => typecheck.index":                              "indexExpr post-order case: the cfgErrorf for a non-indexable operand is overwritten by check.index; for every such operand tried (pointer to non-array, struct, float, chan, func, binary types) the earlier valueTOf(typ.Elem()) / nil type already panics in the same case, so the overwritten error is not the verdict that matters (the input is rejected by a panic, reported as CFG post-order panic)",
+	"Interpreter.cfg: Interpreter.cfg => nil":                                         "constDecl pre-order case: early compilation of a local constant declaration; its error is cleared on purpose (source comment) because the declaration is compiled again, and its error reported, when the walk reaches it",
+	"Interpreter.gta: Interpreter.cfg => nil":                                         "constDecl case of gta: early compilation of a constant declaration; cleared on purpose, the declaration is compiled again by cfg, which reports the error",
+	"Interpreter.gta: nodeType => nil":                                                "typeSpec case of gta: a type that cannot be resolved yet is queued in revisit and retried by gtaRetry, which reports the error if it never resolves",
+	"Interpreter.importSrc: Interpreter.pkgDir => Interpreter.rootFromSourceLocation": "package directory lookup: a failed lookup is retried from the source location; both retry errors are returned",
+	"nodeType2: nodeType2 => nodeType2":                                               "binary-expression case: the error of the second operand's nodeType2 is replaced by the next nodeType2 call; when it is non-nil t1 is nil and the very next statement dereferences it (panic), so no program is accepted through this overwrite",
 }
 
 type errDef struct {
@@ -708,7 +712,39 @@ func overwrittenErrDefs(ic *IC, body *ast.BlockStmt) ([]overwriteHit, int) {
 		}
 		return evs
 	}
-	type state map[defKey]bool
+	// nilTest recognises a block ending in the pure test `v != nil` / `v == nil` of a tracked
+	// variable and returns v and the successor taken when v is not nil. On that successor the
+	// pending definition is known to be an error (confirmed); on the other one it is nil and
+	// nothing is lost by overwriting it.
+	nilTest := func(b *cfg.Block) (*types.Var, *cfg.Block, *cfg.Block) {
+		if len(b.Succs) != 2 || len(b.Nodes) == 0 {
+			return nil, nil, nil
+		}
+		be, ok := b.Nodes[len(b.Nodes)-1].(*ast.BinaryExpr)
+		if !ok || (be.Op != token.NEQ && be.Op != token.EQL) {
+			return nil, nil, nil
+		}
+		x, y := unparen(be.X), unparen(be.Y)
+		if id, ok := x.(*ast.Ident); ok && id.Name == "nil" {
+			x, y = y, x
+		}
+		xid, ok1 := x.(*ast.Ident)
+		yid, ok2 := y.(*ast.Ident)
+		if !ok1 || !ok2 || yid.Name != "nil" {
+			return nil, nil, nil
+		}
+		v, ok := ic.Info.Uses[xid].(*types.Var)
+		if !ok || !vars[v] {
+			return nil, nil, nil
+		}
+		if be.Op == token.NEQ {
+			return v, b.Succs[0], b.Succs[1]
+		}
+		return v, b.Succs[1], b.Succs[0]
+	}
+	// state: 1 = defined and not read yet, 2 = tested and known to be a non-nil error, still not
+	// returned, wrapped or handed to anyone.
+	type state map[defKey]int
 	in := map[*cfg.Block]state{}
 	out := map[*cfg.Block]state{}
 	evCache := map[ast.Node][]event{}
@@ -723,10 +759,14 @@ func overwrittenErrDefs(ic *IC, body *ast.BlockStmt) ([]overwriteHit, int) {
 				continue
 			}
 			st := state{}
-			for k := range in[b] {
-				st[k] = true
+			for k, lv := range in[b] {
+				st[k] = lv
 			}
-			for _, n := range b.Nodes {
+			tv, nonNilSucc, nilSucc := nilTest(b)
+			for ni, n := range b.Nodes {
+				if tv != nil && ni == len(b.Nodes)-1 {
+					break // the nil test itself: handled on the edges below
+				}
 				evs, ok := evCache[n]
 				if !ok {
 					evs = nodeEvents(n)
@@ -747,8 +787,8 @@ func overwrittenErrDefs(ic *IC, body *ast.BlockStmt) ([]overwriteHit, int) {
 					}
 					// a definition: report pending ones when this one may be nil
 					if !ev.def.nonNil {
-						for k := range st {
-							if k.v == ev.v && k.n != ev.def.node {
+						for k, lv := range st {
+							if k.v == ev.v && (k.n != ev.def.node || lv == 2) {
 								first := defs[k]
 								hk := fmt.Sprint(first.node.Pos(), ev.def.node.Pos())
 								hits[hk] = overwriteHit{first, ev.def}
@@ -763,7 +803,7 @@ func overwrittenErrDefs(ic *IC, body *ast.BlockStmt) ([]overwriteHit, int) {
 					if !ev.def.isNil && ev.def.callee != "" {
 						k := defKey{ev.v, ev.def.node}
 						defs[k] = ev.def
-						st[k] = true
+						st[k] = 1
 					}
 				}
 			}
@@ -772,8 +812,8 @@ func overwrittenErrDefs(ic *IC, body *ast.BlockStmt) ([]overwriteHit, int) {
 			if len(prev) != len(st) {
 				changed = true
 			} else {
-				for k := range st {
-					if !prev[k] {
+				for k, lv := range st {
+					if prev[k] != lv {
 						changed = true
 					}
 				}
@@ -783,9 +823,17 @@ func overwrittenErrDefs(ic *IC, body *ast.BlockStmt) ([]overwriteHit, int) {
 				if in[s] == nil {
 					in[s] = state{}
 				}
-				for k := range st {
-					if !in[s][k] {
-						in[s][k] = true
+				for k, lv := range st {
+					if tv != nil && k.v == tv {
+						if s == nilSucc && s != nonNilSucc {
+							continue // nil on this edge: nothing pending
+						}
+						if s == nonNilSucc {
+							lv = 2
+						}
+					}
+					if in[s][k] < lv {
+						in[s][k] = lv
 						changed = true
 					}
 				}
